@@ -1,5 +1,6 @@
 \* C03 / Pipeline, REPAIRED design, UNFUSED local steps (every hook event is a
 \* step of its own, as in trace validation): checks that fusing loses nothing.
+\* Measured: 39 656 distinct / 77 816 generated states, depth 41, 6 s; I1-I5 hold.
 SPECIFICATION MCSpec
 CONSTANTS
   Reqs = {1, 2}
